@@ -838,6 +838,10 @@ def run_case(draws, prop, tier="quick"):
                         want_hooks.get(pth, 0))))
                 break
         res.count("events", plan.n)
+        if plan.long:
+            res.count("probe:long_stream")
+        if plan.shared:
+            res.count("probe:error_instance_shared_across_events")
         res.count("source:" + plan.source_kind)
         if plan.n == 0:
             res.count("probe:empty_stream")
